@@ -1,7 +1,7 @@
 """Value normalisation and the comparison relations (DESIGN 2.3)."""
 import json
 from collections import Counter
-from .refsem import LV, RV, BagV, SetV, OneOf, ckey
+from .refsem import LV, RV, BagV, SetV, OneOf, KBestV, ckey
 
 
 def from_json(x):
@@ -31,6 +31,7 @@ def norm_exp(v):
   if isinstance(v, BagV): return BagV(sorted((norm_exp(x) for x in v), key=ckey))
   if isinstance(v, SetV): return SetV(norm_exp(x) for x in v)
   if isinstance(v, OneOf): return OneOf(norm_exp(x) for x in v)
+  if isinstance(v, KBestV): return v
   if isinstance(v, RV): return RV((f, norm_exp(x)) for f, x in v)
   if isinstance(v, LV): return LV(norm_exp(x) for x in v)
   if isinstance(v, tuple): return LV(norm_exp(x) for x in v)
@@ -65,7 +66,7 @@ def compare_rows(exp_cols, exp_rows, got_cols, got_rows, ordered=False, check_na
     for i, v in enumerate(r):
       if isinstance(v, (BagV, SetV)): kinds[i] = type(v)
   G = [tuple(adapt(norm_got(r[j]), kinds[i]) for i, j in enumerate(perm)) for r in got_rows]
-  has_oneof = any(isinstance(v, OneOf) for r in E for v in r)
+  has_oneof = any(isinstance(v, (OneOf, KBestV)) for r in E for v in r)
   if not has_oneof:
     if ordered:
       if E == G: return None
@@ -78,6 +79,7 @@ def compare_rows(exp_cols, exp_rows, got_cols, got_rows, ordered=False, check_na
   # admissible-answer matching (ties of ArgMin/ArgMax)
   if len(E) != len(G): return 'rows %s, expected %s' % (show(G), show(E))
   def vmatch(e, g):
+    if isinstance(e, KBestV): return e.admits(g)
     return g in e if isinstance(e, OneOf) else e == g
   def rmatch(er, gr): return all(vmatch(e, g) for e, g in zip(er, gr))
   if ordered:
